@@ -847,7 +847,29 @@ class LangServer:
                 return None, None, None
             arg_string = line[sections[0].start : sections[-1].end]
             sub_string, sections = get_paren_level(line[: sections[0].start - 1])
-            return sub_string.strip(), arg_string.split(","), sections[-1].start
+            return sub_string.strip(), split_args(arg_string), sections[-1].start
+
+        def split_args(arg_string: str) -> list[str]:
+            """Split the argument list at the commas that separate arguments, not
+            at commas nested in parentheses/brackets or inside string literals"""
+            args = [""]
+            depth = 0
+            quote = None
+            for char in arg_string:
+                if quote is not None:
+                    if char == quote:
+                        quote = None
+                elif char in "'\"":
+                    quote = char
+                elif char in "([":
+                    depth += 1
+                elif char in ")]":
+                    depth -= 1
+                elif char == "," and depth <= 0:
+                    args.append("")
+                    continue
+                args[-1] += char
+            return args
 
         def check_optional(arg, params: dict):
             opt_split = arg.split("=")
